@@ -1034,6 +1034,47 @@ fn check_sections(ch: &mut Choices, cx: &mut Ctx) -> R {
             fail!("c10/sections/relocate-identity-differs", "line {}: EndianSlice `{:?}` vs identity-relocating reader `{:?}`", i, a.get(i), b.get(i));
         }
     }
+    // owned section data borrowed afterwards (both ways of borrowing): the views are views of the owned copies of the
+    // same sections
+    {
+        // (the position carried by an end-of-input error is left out of this comparison: empty `Vec`s all sit at the same
+        // dangling address, so an identifier inside an empty section cannot be attributed to one section)
+        let strip = |v: &Vec<String>| -> Vec<String> {
+            v.iter()
+                .map(|l| {
+                    let mut out = String::new();
+                    let mut rest = l.as_str();
+                    while let Some(i) = rest.find("(@") {
+                        out.push_str(&rest[..i]);
+                        match rest[i..].find(')') {
+                            Some(j) => rest = &rest[i + j + 1..],
+                            None => {
+                                rest = "";
+                            }
+                        }
+                    }
+                    out.push_str(rest);
+                    out
+                })
+                .collect()
+        };
+        let a = strip(&a);
+        let owned: gimli::DwarfSections<Vec<u8>> = gimli::DwarfSections::load(|id| -> gimli::Result<_> { Ok(get(id).to_vec()) }).unwrap();
+        let bd = owned.borrow(|v| EndianSlice::new(&v[..], endian));
+        let b = strip(&resolve_ids(crate::c18::dump(&bd), &bd));
+        if a != b {
+            let i = a.iter().zip(b.iter()).position(|(x, y)| x != y).unwrap_or(a.len().min(b.len()));
+            fail!("c10/sections/borrowed-owned-differs", "line {}: EndianSlice `{:?}` vs DwarfSections<Vec<u8>>::borrow `{:?}`", i, a.get(i), b.get(i));
+        }
+        let owned2: gimli::Dwarf<Vec<u8>> = gimli::Dwarf::load(|id| -> gimli::Result<_> { Ok(get(id).to_vec()) }).unwrap();
+        #[allow(deprecated)]
+        let bd2 = owned2.borrow(|v| EndianSlice::new(&v[..], endian));
+        let b = strip(&resolve_ids(crate::c18::dump(&bd2), &bd2));
+        if a != b {
+            let i = a.iter().zip(b.iter()).position(|(x, y)| x != y).unwrap_or(a.len().min(b.len()));
+            fail!("c10/sections/borrowed-owned-differs", "line {}: EndianSlice `{:?}` vs Dwarf<Vec<u8>>::borrow `{:?}`", i, a.get(i), b.get(i));
+        }
+    }
     // offset identifiers through the whole-file lookup
     use gimli::SectionId as S;
     for sid in [S::DebugAbbrev, S::DebugAddr, S::DebugAranges, S::DebugInfo, S::DebugLine, S::DebugLineStr, S::DebugLoc, S::DebugLocLists, S::DebugRanges, S::DebugRngLists, S::DebugStr, S::DebugStrOffsets, S::DebugTypes] {
@@ -1071,6 +1112,46 @@ fn check_sections(ch: &mut Choices, cx: &mut Ctx) -> R {
                 ensure!(got.is_err(), "c10/sections/dwp_range-out-of-bounds", "offset {} size {} of {} bytes accepted", off, size, n);
             }
         }
+    }
+    // conveniences of the two reader families on the same bytes: split_at, string views, indexing, equality, hashing
+    {
+        use std::hash::{Hash, Hasher};
+        let bytes = get(S::DebugStr);
+        let n = bytes.len();
+        let r = EndianSlice::new(bytes, endian);
+        for k in [0usize, n / 2, n, ch.below(n + 1)] {
+            let (x, y) = r.split_at(k);
+            ensure!(x.slice() == &bytes[..k] && y.slice() == &bytes[k..] && (k == n || y.slice().as_ptr() == bytes[k..].as_ptr()) && (k == 0 || x.slice().as_ptr() == bytes.as_ptr()), "c10/slice/split_at", "at {} of {}", k, n);
+        }
+        ensure_eq!(r.to_string().ok(), std::str::from_utf8(bytes).ok(), "c10/slice/to_string");
+        ensure_eq!(r.to_string_lossy(), String::from_utf8_lossy(bytes), "c10/slice/to_string_lossy");
+        let invalid: [u8; 4] = [b'a', 0xff, 0xc0, b'z'];
+        let ri = EndianSlice::new(&invalid[..], endian);
+        ensure!(ri.to_string().is_err(), "c10/slice/to_string-accepts-invalid", "");
+        ensure_eq!(ri.to_string_lossy(), String::from_utf8_lossy(&invalid), "c10/slice/to_string_lossy-invalid");
+        let rc = EndianReader::new(Rc::<[u8]>::from(bytes), endian);
+        let arc = EndianReader::new(Arc::<[u8]>::from(bytes), endian);
+        let k = ch.below(n + 1);
+        let mut rc2 = rc.clone();
+        rc2.skip(k).map_err(|e| Failure { sig: "c10/sections/skip".into(), detail: format!("{e:?}") })?;
+        ensure!(rc2[0..] == bytes[k..], "c10/reader/index-from", "at {}", k);
+        if k < n {
+            ensure_eq!(rc2[0], bytes[k], "c10/reader/index", "at {}", k);
+            ensure_eq!(rc2[(n - k) / 2..].len(), n - k - (n - k) / 2, "c10/reader/index-from-len", "at {}", k);
+        }
+        // equality and hashing are by the bytes viewed, whatever owns them
+        ensure!(rc == arc, "c10/reader/eq-across-owners", "");
+        let mut arc2 = arc.clone();
+        arc2.skip(k).map_err(|e| Failure { sig: "c10/sections/skip".into(), detail: format!("{e:?}") })?;
+        ensure_eq!(rc2 == arc2, true, "c10/reader/eq-of-views", "at {}", k);
+        ensure_eq!(rc == arc2, bytes == &bytes[k..], "c10/reader/eq-of-different-views", "at {}", k);
+        let hash_of = |h: &dyn Fn(&mut std::collections::hash_map::DefaultHasher)| {
+            let mut s = std::collections::hash_map::DefaultHasher::new();
+            h(&mut s);
+            s.finish()
+        };
+        ensure_eq!(hash_of(&|s| rc2.hash(s)), hash_of(&|s| arc2.hash(s)), "c10/reader/hash-of-equal-views", "at {}", k);
+        ensure_eq!(hash_of(&|s| rc2.hash(s)), hash_of(&|s| bytes[k..].hash(s)), "c10/reader/hash-is-hash-of-bytes", "at {}", k);
     }
     let foreign = [0u8; 4];
     ensure_eq!(plain.lookup_offset_id(EndianSlice::new(&foreign[..], endian).offset_id()), None, "c10/sections/lookup_offset_id-foreign");
